@@ -1,6 +1,7 @@
 package main
 
 import (
+	"go/types"
 	"go/token"
 	"sort"
 	"strings"
@@ -441,6 +442,10 @@ func checkC12(c *Check) {
 		c.Ob("R5", "free-port counter and allocation flags are written only by the service loop", run.Pos(), bad == "" && n >= 3, "written from "+bad)
 		c.portTransitions(run)
 		c.inventoryClientRules("R4")
+		// a reservation is found / released by comparing order ids: equal means every field equal (shared with C06-R6)
+		c.idEqualsComplete("R4")
+		// the commit levels the inventory scales by are the ones the operator configured, kind by kind
+		c.configPlumbing("R3")
 		c.cancelBeforeDrain("R5", run)
 	}
 }
@@ -802,4 +807,75 @@ func sliceLitElem(v ssa.Value) ssa.Value {
 		return nil
 	}
 	return elem
+}
+
+// configPlumbing: where the provider service copies its configuration into the cluster service's, a field is filled
+// from the field of the same name (the three commit levels differ only in name: a crossed pair scales storage by the
+// memory level).
+func (c *Check) configPlumbing(rule string) {
+	l := c.L
+	ns := l.Func("provider", "", "NewService")
+	if ns == nil {
+		c.Info(rule, "provider.NewService not found, configuration plumbing not decided", token.NoPos, "")
+		return
+	}
+	c.Analysed(fnName(ns))
+	n := 0
+	for _, g := range fnAndClosuresDeep(ns) {
+		eachInstr(g, func(i ssa.Instruction) {
+			st, ok := i.(*ssa.Store)
+			if !ok {
+				return
+			}
+			dfa, ok := st.Addr.(*ssa.FieldAddr)
+			if !ok {
+				return
+			}
+			dt, df := structFieldOf(dfa)
+			if !strings.HasSuffix(dt, ".Config") && !strings.HasSuffix(dt, "Config") {
+				return
+			}
+			sf := ""
+			var srcT types.Type
+			switch v := st.Val.(type) {
+			case *ssa.Field:
+				if strings.Contains(v.X.Type().String(), "Config") {
+					sf = fieldName(v.X.Type(), v.Field)
+					srcT = v.X.Type()
+				}
+			case *ssa.UnOp:
+				if fa, isFA := v.X.(*ssa.FieldAddr); isFA {
+					if tn, f := structFieldOf(fa); strings.Contains(tn, "Config") {
+						sf = f
+						srcT = fa.X.Type()
+					}
+				}
+			}
+			if sf == "" || srcT == nil {
+				return
+			}
+			// only a crossed pair is judged: the source has a field of the destination's name and another one was taken
+			if pt, isP := srcT.Underlying().(*types.Pointer); isP {
+				srcT = pt.Elem()
+			}
+			sst, isS := srcT.Underlying().(*types.Struct)
+			if !isS {
+				return
+			}
+			hasSame := false
+			for k := 0; k < sst.NumFields(); k++ {
+				if sst.Field(k).Name() == df {
+					hasSame = true
+				}
+			}
+			if !hasSame {
+				return
+			}
+			n++
+			c.Ob(rule, "cluster configuration field "+df+" is filled from the provider configuration's "+df, st.Pos(), sf == df, "cluster."+df+" is filled from "+sf+": the operator's "+df+" setting is ignored and another one applied in its place")
+		})
+	}
+	if n == 0 {
+		c.Info(rule, "no configuration field copies found in provider.NewService, plumbing not decided", ns.Pos(), "")
+	}
 }
